@@ -154,27 +154,39 @@ namespace tt {
     return s;
   }
 
-  // print  Definition <name>_<N> (a b : nat -> R) : list R := ...  and the obligation  <name>_<N>_ok
+  // print, for every component k,  Definition <name>_<N>_c<k> (a b : nat -> R) : R := ...  with its obligation
+  //   <name>_<N>_c<k>_ok : <hyp> -> <name>_<N>_c<k> a b = nth k (flat_<out> N (spec_<name> N (full_.. a) (full_.. b))) 0
+  // then the list  <name>_<N> := [c0; c1; ...]  and  <name>_<N>_ok : <hyp> -> <name>_<N> a b = flat_<out> N (spec_<name> ...)
   inline void emit(std::ostream& o, const Op& op, const V<Sym>& outs) {
-    symv::Printer p;
-    std::vector<int> roots;
-    for (auto& x : outs) roots.push_back(symv::node_of(x));
-    const std::string lets = p.lets(roots);
     const std::string nm = op.name + "_" + std::to_string(op.N);
     const std::string Ns = std::to_string(op.N) + "%nat";
-    o << "Definition " << nm;
-    if (!op.in.empty()) o << " (" << letters(op) << " : nat -> R)";
-    o << " : list R :=\n" << lets << "  [";
-    for (size_t i = 0; i < roots.size(); ++i) o << (i ? ";\n   " : "") << p.expr(roots[i]);
+    const std::string ls = letters(op);
+    const std::string binder = op.in.empty() ? std::string() : " (" + ls + " : nat -> R)";
+    const std::string args = op.in.empty() ? std::string() : " " + ls;
+    const std::string hyp = op.hyp.empty() ? std::string() : " " + subst_N(op.hyp, op.N) + " ->";
+    std::string spec = "flat_" + std::string(1, op.out) + " " + Ns + " (spec_" + op.name + " " + Ns;
+    for (size_t k = 0; k < op.in.size(); ++k) spec += " (full_" + std::string(1, op.in[k]) + " " + Ns + " " + char('a' + k) + ")";
+    spec += ")";
+    for (size_t i = 0; i < outs.size(); ++i) {
+      symv::Printer p;
+      std::vector<int> roots{symv::node_of(outs[i])};
+      const std::string lets = p.lets(roots);
+      o << "Definition " << nm << "_c" << i << binder << " : R :=\n" << lets << "  " << p.expr(roots[0]) << ".\n";
+      o << "Lemma " << nm << "_c" << i << "_ok :";
+      if (!op.in.empty()) o << " forall " << ls << ",";
+      o << hyp << "\n  " << nm << "_c" << i << args << " = nth " << i << " (" << spec << ") 0.\n";
+      o << "Proof. prove_comp " << nm << "_c" << i << ". Qed.\n";
+    }
+    o << "Definition " << nm << binder << " : list R :=\n  [";
+    for (size_t i = 0; i < outs.size(); ++i) o << (i ? "; " : "") << nm << "_c" << i << args;
     o << "].\n";
     o << "Lemma " << nm << "_ok :";
-    if (!op.in.empty()) o << " forall " << letters(op) << ",";
-    if (!op.hyp.empty()) o << " " << subst_N(op.hyp, op.N) << " ->";
-    o << "\n  " << nm;
-    if (!op.in.empty()) o << " " << letters(op);
-    o << " = flat_" << op.out << " " << Ns << " (spec_" << op.name << " " << Ns;
-    for (size_t k = 0; k < op.in.size(); ++k) o << " (full_" << op.in[k] << " " << Ns << " " << char('a' + k) << ")";
-    o << ").\nProof. prove_op " << nm << ". Qed.\n\n";
+    if (!op.in.empty()) o << " forall " << ls << ",";
+    o << hyp << "\n  " << nm << args << " = " << spec << ".\n";
+    o << "Proof.\n  intros" << (op.hyp.empty() ? "" : " Hyp") << ". apply list_eq_nth; [reflexivity|]. intros k Hk.\n";
+    for (size_t i = 0; i < outs.size(); ++i)
+      o << "  destruct k as [|k]; [exact (" << nm << "_c" << i << "_ok" << args << (op.hyp.empty() ? "" : " Hyp") << ")|].\n";
+    o << "  exfalso; simpl in Hk; lia.\nQed.\n\n";
   }
 
   // seeded inputs for the double instantiation.  mode 0: generic values in [-2,2]; the first tensor input of kind
@@ -184,10 +196,11 @@ namespace tt {
     for (size_t k = 0; k < op.in.size(); ++k) {
       V<double> v;
       const int n = ksize(op.in[k], op.N);
+      const double fac = std::pow(10., rng.below(7) - 3);
       for (int i = 0; i < n; ++i) {
         double x = rng.range(-2., 2.);
         if (mode == 1) x = double(rng.below(7) - 3);                  // small integers, zeros and ties included
-        if (mode == 2) x *= std::pow(10., rng.below(7) - 3);          // mixed magnitudes
+        if (mode == 2) x *= fac;                                      // another magnitude for every input
         if (op.in[k] == 't' && !op.hyp.empty() && op.hyp.find(std::string("$N ") + char('a' + k)) != std::string::npos) {
           // must be invertible: identity + perturbation of size < 1/3 (diagonally dominant => det > 0)
           x = (i < 3 ? 1. + rng.range(-.3, .6) : rng.range(-.3, .3));
@@ -199,22 +212,27 @@ namespace tt {
     return in;
   }
 
-  // main of every tracer:  gen <out.v> <module> <tier> <nsamples> <seed> | list
+  // main of every tracer:  gen <out.v> <part>/<nparts> <tier> <nsamples> <seed> | list
   inline int tracer_main(int argc, char** argv, const char* header) {
     if (argc >= 2 && !std::strcmp(argv[1], "list")) {
-      for (auto& op : ops()) std::printf("OP %s %d %s %c %d\n", op.name.c_str(), op.N, op.in.empty() ? "-" : op.in.c_str(), op.out, op.tier);
+      for (auto& op : ops()) std::printf("OP %s %d %s %c %d %s\n", op.name.c_str(), op.N, op.in.empty() ? "-" : op.in.c_str(), op.out, op.tier, op.hyp.c_str());
       return 0;
     }
     if (argc >= 7 && !std::strcmp(argv[1], "gen")) {
       const int tier = std::atoi(argv[4]);
+      int part = 0, nparts = 1;
+      std::sscanf(argv[3], "%d/%d", &part, &nparts);
+      int opidx = -1;
       const int ns = std::atoi(argv[5]);
       symv::Rng rng(std::strtoull(argv[6], nullptr, 10));
       std::ostringstream o;
       o << "(* GENERATED by /verif engine S (symtrace) from /repo's working tree -- do not edit *)\n"
-        << "From Coq Require Import Reals List.\nFrom VLib Require Import RealExtra.\n"
+        << "From Coq Require Import Reals List Lia.\nFrom VLib Require Import RealExtra.\n"
         << header << "Import ListNotations.\nLocal Open Scope R_scope.\n\n";
       for (auto& op : ops()) {
+        ++opidx;  // placement in parts does not depend on the tier
         if (op.tier > tier) continue;
+        if (opidx % nparts != part) continue;
         const auto in = sym_inputs(op);
         V<Sym> outs;
         try {
@@ -258,7 +276,7 @@ namespace tt {
       std::fclose(f);
       return 0;
     }
-    std::fprintf(stderr, "usage: trace gen <out.v> <module> <tier> <nsamples> <seed> | trace list\n");
+    std::fprintf(stderr, "usage: trace gen <out.v> <part>/<nparts> <tier> <nsamples> <seed> | trace list\n");
     return 2;
   }
 }  // namespace tt
